@@ -587,6 +587,9 @@ func CanonicalIsomorphAllocated(n, m int, neighbours [][]int, op *CanonicalOrder
 
 	skipDeage := false
 
+	//With vertex classes the partition can start with singleton cells. Their contribution to the value is added here as it is otherwise only added when a cell is split.
+	op.expandValue(neighbours, currentBest, firstLeaf)
+
 	//Split the partition.
 	//We split here and at the end of the loop so we can easily handle the CheckViable option. It wouldn't be hard to check it the other way but might require a
 	worse := equitableRefinementProcedure(neighbours, op, dws, nbs, space, timesSeen, maxCell, numberOfMax, currentBest, firstLeaf, options)
